@@ -35,3 +35,22 @@ def f5_broken_page_not_flagged() -> bool:
         return not page.has_errors
     finally:
         shutil.rmtree(d, ignore_errors=True)
+
+
+def _create_and_compare(pages: dict):
+    import logging
+
+    logging.disable(logging.CRITICAL)
+    from checks import c05
+
+    return c05.check_dir(pages)
+
+
+def f12_irregular_spacing() -> bool:
+    err = _create_and_compare({"a.zo": "# T\n\n-   spaced  out\n"})
+    return bool(err) and "body" in err
+
+
+def f17_zid_before_modify_date() -> bool:
+    err = _create_and_compare({"a.zo": "# T 2024-01-05\n\n- 240229 foo\n"})
+    return bool(err) and "modify" in err
